@@ -8,7 +8,7 @@ export const isString = (v) => typeof v === 'string'
 export const isFunction = (v) => typeof v === 'function'
 export const isObject = (v) => v !== null && typeof v === 'object'
 export const isOn = (key) => /^on[^a-z]/.test(key)
-export const isModelListener = (key) => key.startsWith('onUpdate:')
+export const isModelListener = (key) => key.startsWith('onUpdate')
 
 export function normalizeClass(value) {
   let res = ''
